@@ -159,7 +159,12 @@ func renderSegs(segs []c08Seg, module string) string {
 	for _, s := range segs {
 		p := s.Ident
 		if module != "" {
-			p = module + ":" + p
+			if modOf := model.ModuleOf[module]; modOf != nil {
+				// each segment is qualified with the module that defines its node
+				p = modOf(s.Ident) + ":" + p
+			} else {
+				p = module + ":" + p
+			}
 		}
 		if s.Key != nil {
 			var ks []string
@@ -258,6 +263,8 @@ func (p *c08) Cases(tier string, emit func(interface{})) {
 	emit(c08Case{Part: "relative", Tree: "keys"})
 	emit(c08Case{Part: "absent", Tree: "keys"})
 	emit(c08Case{Part: "absent", Tree: "sparse"})
+	emit(c08Case{Part: "present", Tree: "multi"})
+	emit(c08Case{Part: "relative", Tree: "multi"})
 }
 
 type c08Env struct {
@@ -271,6 +278,16 @@ type c08Env struct {
 func newC08Env(tree string) *c08Env {
 	m := model.SharedSchema("find")
 	t := c08Tree(m, tree)
+	if tree == "multi" {
+		// nodes defined by an imported grouping, a submodule and own augments in one tree
+		m = model.SharedSchema("multi")
+		var err error
+		t, err = model.FromJSON(m.DataDefinitions(), []byte(`{"c":{"own":"a","impx":"b","impy":{"impz":"c","aug2":"d"},"in":{"imp2":"e","own2":"f"},"aug1":"g","sa":"h"},
+		  "l":[{"k":"a","imp2":"i","lc":{"impx":"j"}},{"k":"b"}],"imptop":{"impt":"k","impl":[{"impk":"a","impv":"l"}]},"sc":{"sl":"m","imp2":"n","aug3":"o"}}`))
+		if err != nil {
+			panic(err)
+		}
+	}
 	ref := store.NewRef(t.Clone())
 	log := &store.Log{}
 	return &c08Env{m: m, t: t, ref: ref, log: log, b: node.NewBrowser(m, store.Wrap(ref.Node(), log, "dst"))}
